@@ -227,11 +227,14 @@ def select(ctx, rng, tags):
 
 def design(ctx):
     Broken = __import__("vlib").Broken
-    cfg = "MCDurability_quick.cfg" if ctx.quick() else "MCDurability_thorough.cfg"
-    r = ctx.tlc_exhaustive("MCDurability", cfg, timeout=900, coverage=not ctx.quick())
-    if not ctx.quick() and r.get("zero_cov"):
-        acts = sorted(set(r["zero_cov"]))
-        raise Broken("vacuity gate: actions never taken in the design run: %s" % acts)
+    if ctx.quick():
+        ctx.tlc_exhaustive("MCDurability", "MCDurability_quick.cfg", timeout=600)
+    else:
+        # vacuity gate on the small configuration (coverage statistics slow TLC down tenfold), then the big one
+        r = ctx.tlc_exhaustive("MCDurability", "MCDurability_quick.cfg", timeout=900, coverage=True, count=False)
+        if r.get("zero_cov"):
+            raise Broken("vacuity gate: actions never taken in the design run: %s" % sorted(set(r["zero_cov"])))
+        ctx.tlc_exhaustive("MCDurability", "MCDurability_thorough.cfg", timeout=1200)
     # negative controls: with a repair flag off (= what the code does) TLC must find the corresponding counterexample
     neg = {}
     controls = [("MCDurability_code.cfg", None),                         # everything the code does: some clause fails
@@ -264,6 +267,11 @@ def run(ctx):
     wseeds = [ctx.seed] if ctx.quick() else [ctx.seed, ctx.seed + 1000, ctx.seed + 2000]
     files, summaries, ncases = [], [], 0
     for wseed in wseeds:
+        if wseed != wseeds[0] and __import__("time").time() - ctx.t0 > 520:
+            # coverage only (never a verdict): on an overloaded machine the further workload seeds are dropped
+            ctx.log("time budget: skipping workload seed %d" % wseed)
+            ctx.extra.setdefault("workload_seeds_skipped", []).append(wseed)
+            continue
         rn = Runner(ctx, wseed, nb)
         ref = rn.make_ref()
         tags, ends = {}, {}
@@ -297,7 +305,8 @@ def run(ctx):
                        "schedule of the async writer lag/drain/free, optional torn-write class, optional second crash while reopening), reopened by a "
                        "fresh process and continued; non-trivial = the process really died at a crash point (exit 77); distinct = different "
                        "(schedule, crash tag, main-thread position, torn?, last completed promotion, recovered stable height, opened?) tuples")
-    ctx.cov["exhaustive"] = not ctx.quick()
+    ctx.cov["exhaustive"] = False          # every hook hit of the workloads is enumerated in the thorough tier, thread interleavings are sampled (3 schedules)
+    ctx.extra["all_hook_hits_enumerated"] = not ctx.quick()
     by_tag = {}
     for s in crashed:
         by_tag[s["tag"]] = by_tag.get(s["tag"], 0) + 1
